@@ -40,13 +40,18 @@ def tasks(tier):
     for M, pc, mu, dl, bud in itertools.product(
             [1, 2, 3], pcs, [None, 1], [None, 3], [None, {"max": 1, "window": 8}]):
         cfg = dict(M=M, per_class=pc, max_unknown=mu, deadline=dl, budget=bud, alphabet=ALPHA,
-                   durs=[0, 2], overshoot=[0, 2], abort=True, handler="call", strat_menu=[1, 9],
+                   durs=[0, 2], overshoot=[0, 2], abort=True, handler="call", strat_menu=[1, 9, 0],
                    strat={"default": "ctx", "per": {}} if mu is None else
                    {"default": None, "per": {"T": "ctx", "U": "legacy"}})
         for e in ENTRIES:
             out.append({"family": "surface", "cfg": cfg, "entry": e, "bound": bound, "weight": M})
     out += nest_tasks(["Retry.call", "AsyncRetry.call", "Policy.call"], "surface-reentrant",
                       ["ok", "x:T", "r:T", "x:U", "x:T@"], handler="call")
+    for M, e, rc in itertools.product([2, 3], ["Retry.call", "AsyncRetry.call", "RetryPolicySet.call", "AsyncRetryPolicySet.call"], ["pure", "oneshot"]):
+        cfg = dict(M=M, alphabet=["ok", "x:T", "r:T", "r:R", "x:U"], handler="call", rc_mode=rc,
+                   strat_menu=[1, 0], strat_free=True, max_unknown=1,
+                   strat={"default": None, "per": {"T": "ctx", "R": "legacy", "U": "ctx+opt"}})
+        out.append({"family": "surface-classified-once", "cfg": cfg, "entry": e, "bound": 1})
     return out
 
 
